@@ -6,6 +6,7 @@ import WD.Driver.C16
 import WD.Driver.C10
 import WD.Driver.C13
 import WD.Driver.Obs
+import WD.Driver.C08
 open WD.Driver WD.Proto
 
 def handle (line : String) : String :=
@@ -15,6 +16,7 @@ def handle (line : String) : String :=
   | "subcreated" :: ts => c14Line "subcreated" ts
   | "rekey" :: ts => c14Line "rekey" ts
   | "dq" :: ts => c17Line ts
+  | "ib" :: ts => c08Line ts
   | "obs" :: ts => obsLine ts
   | "reg" :: ts => c13Line ts
   | "poll" :: ts => c10Line ts
